@@ -3,6 +3,7 @@ package geojson
 import (
 	"github.com/tidwall/geojson/geometry"
 	"github.com/tidwall/gjson"
+	"math"
 )
 
 type Polygon struct {
@@ -131,6 +132,13 @@ func (g *Polygon) NumPoints() int {
 	return n
 }
 
+// sameOrdinate tells whether a and b are the same number down to the sign of
+// zero. A Rect keeps only two corners, so the other two are written back from
+// them: -0 and 0 must not be taken for the same ordinate.
+func sameOrdinate(a, b float64) bool {
+	return math.Float64bits(a) == math.Float64bits(b)
+}
+
 func parseJSONPolygon(keys *parseKeys, opts *ParseOptions) (Object, error) {
 	var o Object
 	coords, extra, err := parseJSONPolygonCoords(keys, gjson.Result{}, opts)
@@ -157,13 +165,15 @@ func parseJSONPolygon(keys *parseKeys, opts *ParseOptions) (Object, error) {
 	if extra == nil && opts.AllowRects &&
 		len(holes) == 0 && len(exterior) == 5 &&
 		exterior[0].X < exterior[1].X &&
-		exterior[0].Y == exterior[1].Y &&
-		exterior[1].X == exterior[2].X &&
+		sameOrdinate(exterior[0].Y, exterior[1].Y) &&
+		sameOrdinate(exterior[1].X, exterior[2].X) &&
 		exterior[1].Y < exterior[2].Y &&
 		exterior[2].X > exterior[3].X &&
-		exterior[2].Y == exterior[3].Y &&
-		exterior[3].X == exterior[4].X &&
-		exterior[3].Y > exterior[4].Y {
+		sameOrdinate(exterior[2].Y, exterior[3].Y) &&
+		sameOrdinate(exterior[3].X, exterior[4].X) &&
+		exterior[3].Y > exterior[4].Y &&
+		sameOrdinate(exterior[4].X, exterior[0].X) &&
+		sameOrdinate(exterior[4].Y, exterior[0].Y) {
 		// simple rectangle
 		o = NewRect(geometry.Rect{
 			Min: exterior[0],
